@@ -20,7 +20,7 @@ RULE = ("Hypothesis-generated count-normalised rulesets, with and without --skip
         "draw (either neighbour within 1e-12 of a breakpoint) - the sampler is piecewise constant, so this pins every "
         "derivation's probability; the in-group choice is scripted over every index. End-to-end: HoneywordSession.run(limit=N) "
         "must print exactly N words (N up to 2500, also on Markov-heavy grammars) of the model's non-Markov language in both modes; random_walk twice (and as CLI "
-        "subprocesses, also with --load after an earlier cracking session of another ruleset / --all_lower left its save file) must be identical. Non-trivial = >=2 base structures and a group of >=2 values; distinct = hash of model.")
+        "subprocesses, also with --load after an earlier cracking session of another ruleset / --all_lower left its save file, and for a ruleset that lists one value twice in a group) must be identical. Non-trivial = >=2 base structures and a group of >=2 values; distinct = hash of model.")
 ASSUMPTIONS = ["per variable the probabilities times group sizes add up to 1 (trainer output); the base list may add up to less than 1",
                "for a sub-normalised base list 'its probability' is read as proportional to the listed value"]
 
@@ -355,6 +355,18 @@ def prop_cli(case, rec):
     if _CLI is None or not os.path.isdir(_CLI):
         _CLI = session.copy_cli(session.make_root('c16cli'))
     m, n, sb, sc = case['model'], case['n'], case['skip_brute'], case.get('skip_case', False)
+    dup = case.get('duplicate_value')
+    if dup is not None:
+        # a hand-merged ruleset: one value listed twice in a group of equally probable values. Same language, and still one
+        # ruleset - every process must walk it the same way
+        import copy
+        m = copy.deepcopy(m)
+        names = sorted(k for k, gs in m['vars'].items() if k[0] != 'C' and any(len(v) >= 2 for _, v in gs))
+        if names:
+            gs = m['vars'][names[dup % len(names)]]
+            grp = [v for _, v in gs if len(v) >= 2][0]
+            grp.insert(1 + dup % len(grp), grp[0])
+            rec.cls('cli_value_listed_twice')
     rsmodel.write_ruleset(os.path.join(_CLI, 'Rules', 'T'), m)
     lang = language(m, sb, sc)
     flags = (['--skip_brute'] if sb else []) + (['--all_lower'] if sc else [])
@@ -440,6 +452,7 @@ def cli_cases(draw):
     c = draw(e2e_cases())
     c['n'] = min(c['n'], 300)
     c['history'] = draw(st.sampled_from([None, 'no_save_file', 'other_ruleset', 'all_lower']))
+    c['duplicate_value'] = draw(st.integers(0, 7)) if draw(st.integers(0, 2)) == 0 else None
     if c['history'] is None:
         c['session_name'] = draw(st.sampled_from([None, 'mine', 'side by side', 'night.run-2', 'sess\u00e9', 'default_run']))
         c['long_options'] = draw(st.booleans())
